@@ -27,6 +27,8 @@ def mk_id(code, scheme):
         return code
     if scheme == "jstr":      # JSON-native ids including the falsy empty string
         return "" if code == 2 else ("n%d" % code if code >= 26 else "abc\u00e9efghijklmnopqrstuvwxyz"[code])
+    if scheme == "dstr":
+        return str(code)
     if scheme == "str":
         return "n%d" % code if code >= 26 else "abc\u00e9efghijklmnopqrstuvwxyz"[code]
     # mixed hashables; Python-equal ids must stay distinct per code
@@ -52,8 +54,16 @@ def err_kind(ex):
     return "E:other:" + type(ex).__name__
 
 
+_TNP = False
+
+
 def tok(x):
-    return None if x == "-" else int(x)
+    if x == "-":
+        return None
+    if _TNP:
+        import numpy as np
+        return np.int64(int(x))
+    return int(x)
 
 
 class Impl:
@@ -200,6 +210,58 @@ class Impl:
     def op_attr(self, s, n, a):
         self.G(s).update_node_attr(self.I(int(n)), a=int(a)); return "ok"
 
+    def op_pollute(self, kind):
+        """exercise unrelated graphs, readers and writers in this process with legal but unusual arguments;
+        nothing here may influence the case that follows (process-level state must not leak)"""
+        import tempfile, shutil
+        kind = int(kind)
+        A = dn.DynGraph(); B = dn.DynDiGraph(edge_removal=False)
+        ids = [1.0, 2.0, 3.0] if kind == 1 else (["1", "2", "3"] if kind == 2 else [True, 2, (3, "x")])
+        for G in (A, B):
+            G.add_interaction(ids[0], ids[1], 100, 103); G.add_interaction(ids[1], ids[2], 200); G.add_node(ids[0], name="nm", w=[1])
+            list(G.stream_interactions()); G.temporal_snapshots_ids(); G.interactions_per_snapshots(150); G.interactions_per_snapshots()
+            G.degree(t=100); G.nodes(t=101); list(G.interactions(t=100)); G.has_interaction(ids[0], ids[1], 101)
+            list(_el.generate_snapshots(G, ",")); list(_el.generate_interactions(G, ";"))
+            try:
+                d = node_link_data(G, attrs=dict(id="name", source="source", target="target"))
+                node_link_graph(d, attrs=dict(id="name", source="source", target="target"))
+            except Exception:
+                pass
+            try:
+                _paths.time_respecting_paths(G, ids[0]); _paths.temporal_dag(G, ids[0])
+            except Exception:
+                pass
+        try:
+            A.time_slice(100, 101); A.to_directed(); B.to_undirected(); B.to_undirected(reciprocal=True)
+        except Exception:
+            pass
+        tmp = tempfile.mkdtemp(prefix="dxverif")
+        try:
+            p = os.path.join(tmp, "p.txt")
+            with open(p, "w") as fh:
+                fh.write("1 2 700\n2 3 900 950\n# c\n3 1 800\n")
+            _el.read_snapshots(p, nodetype=str if kind == 2 else int, timestamptype=int, keys=True)
+            _el.read_snapshots(p, nodetype=str, timestamptype=int)
+            with open(p, "w") as fh:
+                fh.write("1 2 + 700\n1 2 - 900\n7 8 + 910\n")
+            _el.read_interactions(p, nodetype=int if kind != 2 else str, timestamptype=int, keys=True)
+            _el.read_interactions(p, nodetype=str, timestamptype=int, directed=True)
+        except Exception:
+            pass
+        finally:
+            shutil.rmtree(tmp, ignore_errors=True)
+        try:
+            _paths.annotate_paths([((1, 2, 5),), ((1, 3, 4), (3, 2, 6))])
+        except Exception:
+            pass
+        return "ok"
+
+    def op_clear(self, s):
+        self.G(s).clear(); return "ok"
+
+    def op_clearedges(self, s):
+        self.G(s).clear_edges(); return "ok"
+
     def op_gattr(self, s, a):
         self.G(s).graph["a"] = int(a); return "ok"
 
@@ -236,14 +298,14 @@ class Impl:
     def op_snaprt(self, src, dst):
         G = self.G(src)
         rows = list(_el.generate_snapshots(G, " "))
-        nt = int if self.ids == "int" else None
+        nt = int if self.ids == "int" else (str if self.ids == "dstr" else None)
         self.slots[int(dst)] = _el.parse_snapshots(rows, directed=G.is_directed(), nodetype=nt, timestamptype=int)
         return "ok"
 
     def op_intrt(self, src, dst):
         G = self.G(src)
         rows = list(_el.generate_interactions(G, " "))
-        nt = int if self.ids == "int" else None
+        nt = int if self.ids == "int" else (str if self.ids == "dstr" else None)
         self.slots[int(dst)] = _el.parse_interactions(rows, directed=G.is_directed(), nodetype=nt, timestamptype=int)
         return "ok"
 
@@ -320,7 +382,7 @@ class Impl:
         for _ in range(int(k)):
             n = int(rest[i]); f = rest[i + 1:i + 1 + n]; i += 1 + n
             lines.append(" ".join([self._txt(f[0]), self._txt(f[1])] + list(f[2:])))
-        nt = int if self.ids == "int" else None
+        nt = int if self.ids == "int" else (str if self.ids == "dstr" else None)
         self.slots[int(dst)] = _el.parse_snapshots(lines, directed=bool(int(cls)), nodetype=nt, timestamptype=int)
         return "ok"
 
@@ -340,7 +402,7 @@ class Impl:
         for i in range(int(k)):
             u, v, op, t = rest[4 * i:4 * i + 4]
             lines.append(" ".join([self._txt(u), self._txt(v), "+" if op == "1" else "-", t]))
-        nt = int if self.ids == "int" else None
+        nt = int if self.ids == "int" else (str if self.ids == "dstr" else None)
         self.slots[int(dst)] = _el.parse_interactions(lines, directed=bool(int(cls)), nodetype=nt, timestamptype=int)
         return "ok"
 
@@ -355,7 +417,7 @@ class Impl:
         d, en = self.DELIMS[int(delim)], self.ENCS[int(enc)]
         wr = _el.write_interactions if kind else _el.write_snapshots
         rd = _el.read_interactions if kind else _el.read_snapshots
-        nt = int if self.ids == "int" else None
+        nt = int if self.ids == "int" else (str if self.ids == "dstr" else None)
         tmp = tempfile.mkdtemp(prefix="dxverif")
         try:
             p = os.path.join(tmp, "g.txt" + ["", ".gz", ".bz2", ""][target])
@@ -448,7 +510,10 @@ class Impl:
         G = self.G(src)
         d = json.loads(json.dumps(node_link_data(G)))
         if not int(keepflag):
+            # the class must then come from the argument; links are dropped so that reading directed
+            # data as an undirected graph cannot trip over the start-order rule
             del d["directed"]
+            d["links"] = []
         self.slots[int(dst)] = node_link_graph(d, directed=bool(int(dflt)))
         return "ok"
 
@@ -486,6 +551,10 @@ class Impl:
         r["deg"] = guard(lambda: dd(G.degree(nb, t)))
         r["deg_iter"] = guard(lambda: dd(dict(G.degree_iter(nb, t))))
         r["f_deg"] = guard(lambda: dd(dn.degree(G, nb, t)))
+        if nb is not None:
+            # nbunch is documented as "iterated through once": a one-shot iterator is legal
+            r["deg_once"] = guard(lambda: dd(G.degree(iter(list(nb)), t)))
+            r["inter_once"] = guard(lambda: inter(G.interactions(iter(list(nb)), t)))
         if D:
             r["indeg"] = guard(lambda: dd(G.in_degree(nb, t)))
             r["outdeg"] = guard(lambda: dd(G.out_degree(nb, t)))
@@ -548,7 +617,9 @@ class Impl:
 
     # ---- C04
     def op_q4(self, s, lo, hi):
-        G = self.G(s)
+        return self.op_q4_obj(self.G(s), lo, hi)
+
+    def op_q4_obj(self, G, lo, hi):
         ipsd = G.interactions_per_snapshots()
         return {"ids": list(G.temporal_snapshots_ids()), "f_ids": list(dn.temporal_snapshots_ids(G)),
                 "ips": [[t, self.num2(G.interactions_per_snapshots(t))] for t in range(int(lo), int(hi) + 1)],
@@ -714,11 +785,24 @@ class Impl:
                                   nodetype=int, timestamptype=int)
         for n in self.slots[int(dst)]._node:
             self.rev.setdefault(n, n)
+        # the same text with another node type: same graph, nodes of that type (impl-only cross check)
+        H = fn(lines, comments=chr(int(comment)), directed=bool(int(cls)), delimiter=d, nodetype=str, timestamptype=int)
+        if any(not isinstance(n, str) for n in H._node):
+            return "nodetype-not-honoured"
+        G0 = self.slots[int(dst)]
+        e0 = sorted((str(u).strip(), str(v).strip(), json.dumps(dd["t"])) for u, v, dd in (G0.out_interactions_iter() if G0.is_directed() else G0.interactions_iter()))
+        e1 = sorted((u.strip(), v.strip(), json.dumps(dd["t"])) for u, v, dd in (H.out_interactions_iter() if H.is_directed() else H.interactions_iter()))
+        if not G0.is_directed():
+            e0 = sorted((min(a, b), max(a, b), t) for a, b, t in e0); e1 = sorted((min(a, b), max(a, b), t) for a, b, t in e1)
+        if e0 != e1:
+            return "nodetype-changes-graph"
         return "ok"
 
 
-def run_case(lines, ids="int"):
+def run_case(lines, ids="int", tnp=False):
     import contextlib
+    global _TNP
+    _TNP = bool(tnp)
     im = Impl(ids)
     with contextlib.redirect_stderr(io.StringIO()):
         return im.run(lines)
